@@ -72,7 +72,68 @@ impl<'a> Gen<'a> {
         }
     }
 
+    /// Targeted scenario: fill the live segment, then a multi-event append whose first event forces the
+    /// rollover and whose later event fails (bad timestamp) so the write is truncated in the NEW segment,
+    /// then further appends, a reopen (or a crash) and reads of everything.
+    fn scenario_rollover_fail(&mut self, thorough: bool) -> Hist {
+        let buckets = *self.rng.pick(&[1u16, 2]);
+        let base = self.rng.below(50) as u16;
+        let keys = vec![base, base, base + 2];
+        let mut h = Hist { buckets, seg: 131072, comp: self.rng.chance(1, 2), keys, ops: vec![] };
+        let mut ops = Vec::new();
+        let k = self.rng.below(2) as usize;
+        let pid = h.keys[k];
+        // some small appends, then one event larger than half a segment: the next such event must roll over
+        let nsmall = self.rng.below(4);
+        for _ in 0..nsmall { let a = self.append_on(&h, k, false, false); ops.push(a); }
+        let mut fill = self.append_on(&h, k, true, false);
+        if let Op::Append { evs, .. } = &mut fill { evs.truncate(1); evs[0].len = self.rng.range(66_000, 75_000) as usize; }
+        ops.push(fill);
+        // the failing append: big first event, bad timestamp later
+        let mut a = self.append_on(&h, k, true, false);
+        if let Op::Append { evs, .. } = &mut a {
+            while evs.len() < 2 { let mut e = evs[0].clone(); e.eid = self.next_eid; self.next_eid += 1; e.xv = Xv::Any; evs.push(e); }
+            let n = evs.len();
+            evs[0].len = self.rng.range(66_000, 75_000) as usize;
+            evs.truncate(3);
+            let n = evs.len();
+            for e in evs.iter_mut().skip(1) { e.len = self.rng.range(10, 3000) as usize; e.xv = Xv::Any; }
+            let bad = self.rng.range(1, n as u64 - 1) as usize;
+            evs[bad].ts_ok = false;
+        }
+        ops.push(a);
+        let nmore = self.rng.range(1, 3);
+        for _ in 0..nmore {
+            let big = self.rng.chance(1, 3);
+            let a = self.append_on(&h, k, big, false);
+            ops.push(a);
+            if self.rng.chance(1, 2) { ops.push(Op::ScanP { pid, from: 0, rev: self.rng.chance(1, 3), batch: *self.rng.pick(&[1usize, 3, 50]) }); }
+        }
+        match self.rng.below(3) { 0 => ops.push(Op::Reopen), 1 => ops.push(Op::Crash { keep: self.rng.below(4) as usize, extra: *self.rng.pick(&[0usize, 5, 60]) }), _ => {} }
+        ops.push(Op::ScanP { pid, from: 0, rev: false, batch: 50 });
+        ops.push(Op::ScanP { pid, from: u64::MAX, rev: true, batch: 2 });
+        ops.push(Op::PSeq { pid });
+        let n = if thorough { 8 } else { 5 };
+        self.read_ops(&h, &mut ops, n);
+        let a = self.append_on(&h, k, false, false); ops.push(a);
+        ops.push(Op::ScanP { pid, from: 0, rev: false, batch: 3 });
+        h.ops = ops;
+        h
+    }
+
+    fn append_on(&mut self, h: &Hist, k: usize, big: bool, allow_bad: bool) -> Op {
+        let mut a = self.append(h, big, allow_bad);
+        if let Op::Append { k: kk, evs, .. } = &mut a {
+            *kk = k;
+            let nk = h.keys.len() as u64;
+            // keep the streams on this key so that the appends are mostly accepted
+            for e in evs.iter_mut() { e.sid = (e.sid / nk) * nk % 6 + k as u64; if e.sid >= 6 { e.sid = k as u64; } e.xv = Xv::Any; }
+        }
+        a
+    }
+
     pub fn history(&mut self, thorough: bool) -> Hist {
+        if matches!(self.prop, "C01" | "C03" | "C04" | "C05") && self.rng.chance(1, 5) { return self.scenario_rollover_fail(thorough); }
         let buckets = *self.rng.pick(&[1u16, 2, 2]);
         let nk = self.rng.range(2, 4) as usize;
         // partition ids: first two keys share a partition, others differ (and may share the bucket)
